@@ -188,6 +188,13 @@ def run_corpus_patch(args) -> dict:
 
             if _json.load(open(mp)).get("accept_props"):
                 return {"id": sid, "kind": kind, "status": "skipped", "why": "filed under this property by its author, judged to break another one (meta.json reviewer_note)"}
+        if kind == "seeded" and not new and os.path.exists(mp):
+            import json as _json
+
+            km = _json.load(open(mp)).get("known_miss")
+            if km:
+                # documented in DESIGN 10.6 / 10.8: a runtime quantity no rule derives; reported as skipped, and as fired should it ever be caught
+                return {"id": sid, "kind": kind, "status": "skipped", "why": "known miss of the static family: " + km}
         if kind == "seeded":
             res["status"] = "fired" if new else "FAILED"
             if not new:
